@@ -405,17 +405,17 @@ def oracle_adaptive(case, obs):
         if valid:
             bad.append(("adaptive-exception:ValueError-on-valid-parameters", f"ValueError for min_step={mn}, max_step={mx}"))
         return bad
-    if not valid:
-        bad.append(("adaptive-invalid-parameters-accepted", f"min_step={mn}, max_step={mx} accepted"))
-        return bad
+    # parameters the documented guard should have rejected but did not: the property is still judged
     lo, hi = min(s, e), max(s, e)
     for i, p in enumerate(obs["pos"]):
         if not (lo <= p <= hi):
             side = "beyond-stop" if (p - e) * (1 if e >= s else -1) > 0 else "before-start"
             bad.append((f"adaptive-out-of-range:{side}:{'ascending' if e >= s else 'descending'}", f"point {i} at {p!r} outside [{lo}, {hi}] (start={s}, stop={e})"))
             break
-    excluded, bound = adaptive_bound(case)
-    if obs["status"] == "cap":
+    excluded, bound = adaptive_bound(case) if valid else (False, None)
+    if obs["status"] == "cap" and not valid:
+        bad.append(("adaptive-nonterminating:invalid-parameters-accepted", f"min_step={mn}, max_step={mx} accepted and still running after {MSG_CAP} messages"))
+    elif obs["status"] == "cap":
         if excluded:
             bad.append((SIG_F21, f"adaptive_scan(backstep=True, threshold={case['threshold']}) ascending {s}->{e}: still running after {MSG_CAP} messages / {len(obs['pos'])} points; last positions {obs['pos'][-3:]}"))
         elif bound is not None and bound * 9 < MSG_CAP:
@@ -437,9 +437,7 @@ def oracle_tune(case, obs, mode):
         if valid:
             bad.append(("tune-exception:ValueError-on-valid-parameters", f"ValueError for min_step={mn}, step_factor={sf}"))
         return bad
-    if not valid:
-        bad.append((f"tune-invalid-parameters-accepted:{'step_factor<=1' if sf <= 1 else 'min_step<=0'}", f"min_step={mn}, step_factor={sf} accepted; status {obs['status']} after {len(obs['pos'])} points"))
-        return bad
+    # parameters the documented guards should have rejected but did not: the property is still judged
     if obs["status"] == "ZeroDivisionError" and case["num"] == 1 and not obs["pos"]:
         return bad  # documented-by-code behaviour for num == 1: raised before any motion
     lo, hi = min(s, e), max(s, e)
@@ -447,11 +445,12 @@ def oracle_tune(case, obs, mode):
     pos = [conv(Q(p)) if mode == "frac" else p for p in obs["pos"]]
     park = obs["park"] if obs["park"] is None else (conv(Q(obs["park"])) if mode == "frac" else obs["park"])
     if obs["status"] == "cap":
-        bad.append((f"tune-nonterminating:{'snake' if case['snake'] else 'no-snake'}", f"still running after {MSG_CAP} messages / {len(pos)} points"))
+        why = "" if valid else ":invalid-parameters-accepted"
+        bad.append((f"tune-nonterminating:{'snake' if case['snake'] else 'no-snake'}{why}", f"still running after {MSG_CAP} messages / {len(pos)} points (min_step={mn}, step_factor={sf}, num={case['num']})"))
     elif obs["status"] != "done":
         bad.append((f"tune-exception:{obs['status']}", f"plan raised {obs['status']} after {len(pos)} points (num={case['num']})"))
     else:
-        b = tune_bound(case)
+        b = tune_bound(case) if valid and case["num"] != 1 else None
         if b is not None and len(pos) > b - 1:
             bad.append(("tune-bound-exceeded", f"{len(pos)} points, proven bound {b - 1}"))
         if obs["extra_sets"] not in (0, 1):
